@@ -451,8 +451,9 @@ def guarded_history(g, rng, queries=(), nrows=None):
     for v, p_ in zip(vs, point):
         cons.append(tb.app("<=", [num(p_ - rng.randint(0, 4)), v]))
         cons.append(tb.app("<=", [v, num(p_ + rng.randint(0, 4))]))
-    for _ in range(nrows or rng.choice([12, 20, 26, 30, 34])):
-        k = rng.randint(2, min(4, len(vs)))
+    for _ in range(nrows or (40 if len(vs) >= 10 else rng.choice([12, 20, 26, 30, 34]))):
+        # with ten or more variables the rows are denser (up to six variables): many more pivots per check
+        k = rng.randint(2, min(6 if len(vs) >= 10 else 4, len(vs)))
         idx = rng.sample(range(len(vs)), k)
         coefs = [rng.choice([-3, -2, -1, 1, 2, 3]) for _ in idx]
         val = sum(c * point[i] for c, i in zip(coefs, idx))
@@ -462,6 +463,8 @@ def guarded_history(g, rng, queries=(), nrows=None):
             lo += rng.randint(0, 2)
         cons.append(tb.app("<=", [num(lo), t]))
         cons.append(tb.app("<=", [t, num(hi)]))
+    if len(vs) >= 10 or rng.random() < 0.5:
+        rng.shuffle(cons)       # bounds on variables and on rows interleaved: the solver's variable order changes with it
     cmds = [{"c": "assert", "t": tb.app("or", [tb.app("not", [gd]), c_]), "nm": "", "inner": []} for c_ in cons]
     other = vs[0]
     cmds.append({"c": "assert", "t": tb.app("or", [gd, tb.app("<=", [num(1), other])]), "nm": "", "inner": []})
